@@ -3,6 +3,9 @@
 # Usage: ./build.sh [clean]
 set -e
 cd "$(dirname "$0")/coq"
+mkdir -p ../work
+exec 9>../work/.build.flock
+flock 9
 if [ "$1" = clean ]; then
   [ -f Makefile.coq ] && make -f Makefile.coq clean >/dev/null 2>&1 || true
   find . -name '*.vo' -o -name '*.vok' -o -name '*.vos' -o -name '*.glob' -o -name '.*.aux' | xargs -r rm -f
@@ -19,4 +22,4 @@ if ! cmp -s _CoqProject.new _CoqProject || [ ! -f Makefile.coq ]; then
 else
   rm -f _CoqProject.new
 fi
-exec timeout 3000 make -f Makefile.coq -j"${VERIF_JOBS:-16}" 2>&1
+timeout 3000 make -k -f Makefile.coq -j"${VERIF_JOBS:-16}" 2>&1
